@@ -125,8 +125,13 @@ fn gen_v(depth: u32) -> V {
         }
         17 => V::List((0..pick(&[0u32, 1, 2, 3, 30])).map(|_| gen_v(depth + 1)).collect()),
         18 if choice(3) == 0 => {
-            // a map whose keys are timestamps and whose values are longs
-            V::Map((0..1 + choice(3)).map(|i| (V::Timestamp(1_600_000_000_000 + i as i64), V::Long(pick(&[-7i64, 5, -70_000_000_000, i64::MAX])))).collect())
+            // maps whose key and value share a Rust representation but not a constructor:
+            // timestamp / long, array / list
+            if choice(2) == 0 {
+                V::Map((0..1 + choice(3)).map(|i| (V::Timestamp(1_600_000_000_000 + i as i64), V::Long(pick(&[-7i64, 5, -70_000_000_000, i64::MAX])))).collect())
+            } else {
+                V::Map((0..1 + choice(2)).map(|i| (V::Array((0..i).map(|k| V::Uint(70_000 + k)).collect()), V::List((0..choice(3)).map(|k| V::Uint(k)).collect()))).collect())
+            }
         }
         18 => V::Map((0..choice(4)).map(|i| (V::Str(format!("k{}", i)), gen_v(depth + 1))).collect()),
         19 if choice(3) == 0 => {
@@ -669,8 +674,13 @@ pub async fn run_c20_trailing() {
     let a: Result<Value, _> = from_slice(&bytes);
     let a = match a {
         Ok(v) => v,
-        Err(e) => {
-            sim::violation("valid-encoding-rejected", format!("a valid {:?} encoding {} was rejected by the slice reader: {:?}", kind, refcodec::hex(&enc[..enc.len().min(64)]), e));
+        Err(_) => {
+            // that a valid encoding is accepted is C05's business; both readers must agree on the refusal
+            let mut rd = SimRead::new(bytes.clone(), chunk, 0, None);
+            if let Ok(v) = from_reader::<Value>(&mut rd) {
+                sim::violation("readers-disagree", format!("slice reader rejects {}, stream reader (chunk {}) gives {:?}", refcodec::hex(&enc[..enc.len().min(64)]), chunk, v));
+            }
+            sim::probe("valid-encoding-rejected");
             return;
         }
     };
